@@ -25,6 +25,10 @@ def build(net, names=None):
     wires = [hw.wire('w%d' % (k + 1), w) for k, w in enumerate(net['width'])]
     W = lambda i: wires[i - 1]
     objs = []
+    drivers = [hw.clockDriver]
+    for d, dm in enumerate(net.get('doms', [])[1:], start=2):
+        drivers.append(py4hw.ClockDriver('clk%d' % d, base=hw.clockDriver,
+                                         enable=W(dm['en']) if dm['en'] else None, wire=hw.wire('clk%d' % d)))
     for b, lf in enumerate(net['leaves']):
         k = lf['kind']
         nm = (names[b] if names else 'l%d' % (b + 1))
@@ -56,6 +60,9 @@ def build(net, names=None):
             o = py4hw.Sub(hw, nm, ins[0], ins[1], outs[0])
         else:
             raise Unsupported('build: kind ' + k)
+        d = lf.get('dom', 0)
+        if d and d > 1:
+            o.clockDriver = drivers[d - 1]
         objs.append(o)
     return hw, wires, objs
 
